@@ -1761,4 +1761,41 @@ func moreClientScenarios(o *out, r *rng) {
 		_ = c.Close()
 		o.count("default-collector-custom-clock")
 	}
+	// (6) many transactions in flight when the client is closed: each handler runs exactly once by the time
+	// Close has returned, and none afterwards
+	for i, k := range []int{1, 50, 99, 100, 101, 130, 257, 1000} {
+		e := mk(false)
+		if e == nil {
+			continue
+		}
+		for j := 0; j < k; j++ {
+			_ = startTID(e, 5000+j, clientTID(5000+j), 20)
+		}
+		_ = e.c.Close()
+		missing, twice := 0, 0
+		for j := 0; j < k; j++ {
+			switch n := count(e, 5000+j); {
+			case n == 0:
+				missing++
+			case n > 1:
+				twice++
+			}
+		}
+		if missing > 0 || twice > 0 {
+			d := fmt.Sprintf("x close-with-%d-in-flight #%d not-invoked=%d invoked-more-than-once=%d", k, i, missing, twice)
+			o.failFor("C10", "transaction-not-completed-by-close", d)
+			o.failFor("C12", "transaction-not-completed-by-close", d)
+		}
+		time.Sleep(2 * time.Millisecond)
+		late := 0
+		for j := 0; j < k; j++ {
+			if count(e, 5000+j) > 1 {
+				late++
+			}
+		}
+		if late > twice {
+			o.failFor("C15", "handler-after-close", fmt.Sprintf("x close-with-%d-in-flight #%d", k, i))
+		}
+		o.count("close-with-many-in-flight")
+	}
 }
